@@ -8,9 +8,12 @@ def run(tier):
     wd = vp.workdir("c07")
     thorough = tier == "thorough"
     drv = mc.drivers()
+    # an unoptimised build as well: every conversion the source spells out is really executed there (an
+    # optimiser removes exact round trips, e.g. of a float through a wider floating-point type)
+    drv["mem_mask_O0"] = vp.build("mem_mask_O0", ["mem_driver.cpp"], ["-DUSE_FINDER=0"], "-O0")
     total, combos = 0, set()
     for mode in ("store", "load"):
-        for tag in (("mask", "finder", "lp16", "lp16_finder") if thorough else ("mask", "lp16")):
+        for tag in (("mask", "finder", "lp16", "lp16_finder", "mask_O0") if thorough else ("mask", "lp16", "mask_O0")):
             tpath = mc.record(drv["mem_" + tag], wd, mode, tag, thorough)
             events, bad = mc.validate(chk, tpath, "%s/%s" % (mode, tag))
             total += len(events)
